@@ -1,2 +1,3 @@
 pub mod expr;
 pub mod tree;
+pub mod xargs;
